@@ -131,6 +131,9 @@ pub fn c13(case_seed: u64, acc: &mut Acc) {
                 if let Some(o) = other_sig(p) {
                     devs.push(Fault::Substitute(p, o));
                 }
+                // a look-alike in the slot: the name of the signal the first answer had there, but
+                // another type, width or default - not the signal of the first answer
+                devs.push(Fault::SubstituteTwin(p, ((case_seed as usize + c + p) % 3) as u8));
                 for q in (p + 1)..lay.len() {
                     devs.push(Fault::Swap(p, q));
                 }
